@@ -12,7 +12,8 @@ import time
 from . import oracle
 from .zpool import Zygote
 
-WORKERS = int(os.environ.get("VERIF_WORKERS", "0")) or min(8, os.cpu_count() or 4)
+# more workers only add CPU use in this sandbox (fork-bound, see main.TIERS); 3 keeps orchestration overlapped
+WORKERS = int(os.environ.get("VERIF_WORKERS", "0")) or min(3, os.cpu_count() or 3)
 
 
 class Farm:
